@@ -477,3 +477,69 @@ def register(R, tier="quick"):
                ensures=[lambda I, env: to_z3(env["result"]) == (env["self"].fields["_deleted"].has(env["docnum"])
                                                                 if isinstance(env["self"].fields["_deleted"], DelSet) else z3.BoolVal(False))],
                returns="bool")
+
+    # ------------------------------------------------------------------ merge policies: no segment is lost (C06 / C07)
+    from pyvc.theories.trace import Recorder, trace_of
+    from pyvc.values import PyList, Builtin
+
+    class SegStub(Abstract):
+        def __init__(self, k):
+            self.k = k
+            self.cnt = z3.Int("segcount_%d" % k)
+
+        def havoc(self, I):
+            pass
+
+        def m_doc_count_all(self, I):
+            return self.cnt
+
+    def mp_setup(I, nseg):
+        segs = [SegStub(k) for k in range(nseg)]
+        for a, b in zip(segs, segs[1:]):
+            I.assume(a.cnt <= b.cnt)          # already in the order sorted() would produce (sorted is then the identity)
+        for sg in segs:
+            I.assume(sg.cnt >= 0)
+        w = Recorder("writer", attrs={"storage": Recorder("storage"), "schema": Recorder("schema")})
+        return {"writer": w, "segments": PyList(segs), "nseg": nseg}
+
+    def sr_init(I, env):
+        env["self"].fields["_seg"] = env["segment"]
+
+    R.contract(RD + ":SegmentReader.__init__", label="layout/SegmentReader.__init__@merge", props=["C06", "C07"], verify=False,
+               effect=sr_init, note="(call-site stub for the merge policies: a reader of that segment)")
+    R.contract(RD + ":SegmentReader.close", label="layout/SegmentReader.close@merge", props=["C06", "C07"], verify=False)
+
+    def mp_post(I, env):
+        segs = I.old_env["segments"].items
+        res = env["result"]
+        merged = [a[0].fields.get("_seg") for (o, m, a) in trace_of(I) if o == "writer" and m == "add_reader"]
+        if not isinstance(res, PyList):
+            return z3.BoolVal(False)
+        kept = res.items
+        ok = all(isinstance(x, SegStub) for x in kept) and all(isinstance(x, SegStub) for x in merged)
+        if not ok:
+            return z3.BoolVal(False)
+        ks, ms = sorted(x.k for x in kept), sorted(x.k for x in merged)
+        # every segment is either kept in the list that becomes the new TOC or handed to add_reader - exactly once
+        return z3.BoolVal(sorted(ks + ms) == list(range(len(segs))) and (not ms or len(ms) > 1))
+
+    def mp_post_all(I, env):
+        segs = I.old_env["segments"].items
+        merged = [a[0].fields.get("_seg") for (o, m, a) in trace_of(I) if o == "writer" and m == "add_reader"]
+        res = env["result"]
+        return z3.BoolVal(isinstance(res, PyList) and res.items == [] and [getattr(x, "k", None) for x in merged] == list(range(len(segs))))
+
+    W_ = "whoosh.writing"
+    R.contract(W_ + ":MERGE_SMALL", props=["C06", "C07"], setup=mp_setup,
+               variants=[dict(nseg=n) for n in (6, 8, 5, 4, 1, 0)],
+               ensures=[mp_post],
+               opts={"builtin_override": {"sorted": Builtin("sorted", lambda I, args, kw, node: args[0])}},
+               canaries=[Canary("remaining-segments-dropped", "unchanged_segments.append(seg)", "pass"),
+                         Canary("merge-list-misses-last", "segments_to_merge.append((seg, i))", "segments_to_merge.append((seg, i)) if i != 2 else None")],
+               assumptions=["the segments are given in ascending doc_count_all order (sorted() is the identity on them); "
+                            "segment lists of 0, 1, 4, 5, 6, 8 entries with arbitrary sizes"],
+               note="the default merge policy partitions the segments: each is either kept for the new TOC or merged into the "
+                    "new segment through add_reader, never both, never neither")
+    R.contract(W_ + ":OPTIMIZE", props=["C06", "C07"], setup=mp_setup, variants=[dict(nseg=n) for n in (0, 1, 3)],
+               ensures=[mp_post_all], 
+               note="optimize merges every segment")
